@@ -74,6 +74,11 @@ CHECKS = {
             "The stand-alone token stream of the inner query must occur in the outer statement as a contiguous run (placeholders compared by kind), bracketed exactly "
             "where the position requires, followed by an alias only at FROM/JOIN/select-list positions; INSERT..SELECT must be the INSERT head plus the SELECT unchanged.",
             "Trusted: reference lexers; the position templates in pbt/props/c10.py."),
+    "C07": ("emission-site templates x Hypothesis-generated adversarial names x six classes; renaming-homomorphism oracle on token streams through the reference lexer",
+            "Each template is built with plain unique names and with adversarial names: every plain name must come out as one identifier token quoted with the "
+            "context's quote character, and the adversarial token stream must be the plain one with each identifier token replaced by an identifier token "
+            "decoding to the adversarial name - one name, one token, same spelling at definition and reference, structure unchanged.",
+            "Trusted: identifier rules of the reference lexers; the template list (one per emission site) in pbt/props/c07.py. CTE templates stop at the known bare-name finding."),
 }
 
 NOT_BUILT = {}
